@@ -1079,8 +1079,7 @@ func checkRecursion(c *Check) {
 	pp := L.ByRel["src/parser"]
 	info := pp.TypesInfo
 	reentry := map[string]string{
-		"parser.newParser":                            "constructor used by Parse",
-		"parser.(*parser).resolveModuleImport|Parse":  "memo: the module map gets a nil placeholder before the nested Parse; a hit on the placeholder reports the cycle",
+		"parser.newParser": "constructor used by Parse",
 		"parser.(*parser).InstantiateGenericFunction": "memo: the instantiation is registered before its body is parsed (checked below)",
 		"parser.(*parser).alias":                      "argument sub-parser over tokens[exprStart:cur]; no memo (see finding)",
 		"parser.(*parser).checkAlias":                 "argument sub-parser over the tokens of one alias argument; no memo (see finding)",
@@ -1103,10 +1102,16 @@ func checkRecursion(c *Check) {
 				}
 			case *ast.CallExpr:
 				if fn := Callee(info, x); fn != nil && L.QName(fn) == "parser.Parse" {
-					if why, ok := reentry[q+"|Parse"]; ok {
-						r.OK(q+"|Parse", x.Pos(), why)
+					guarded := false
+					for _, s := range nestedParseSites(L) {
+						if s.call == x {
+							guarded = s.guarded
+						}
+					}
+					if guarded {
+						r.OK(q+"|Parse", x.Pos(), "memo: the module map gets a nil placeholder before the nested Parse; a hit on the placeholder reports the cycle")
 					} else {
-						r.Bad(q+"|Parse", x.Pos(), "new call of Parse from inside the parser that is not in the reviewed table")
+						r.Bad(q+"|Parse", x.Pos(), "call of Parse from inside the parser without the nil placeholder in the module map on every path to it")
 					}
 				}
 			}
@@ -1149,7 +1154,7 @@ func checkInstantiationMemo(c *Check, r *Rule, prefix string) {
 		if v := fieldOf(info, ix.X); v != nil && v.Name() == "Instantiations" {
 			ext := false
 			for _, s := range stack {
-				if is, ok := s.(*ast.IfStmt); ok && strings.Contains(L.Src(is.Cond), "IsExternFunc") && is.Body.Pos() <= ix.Pos() && ix.Pos() < is.Body.End() {
+				if is, ok := s.(*ast.IfStmt); ok && condCalls(info, fi.Decl.Body, is.Cond, "src/ast", "IsExternFunc") && is.Body.Pos() <= ix.Pos() && ix.Pos() < is.Body.End() {
 					ext = true
 				}
 			}
@@ -1217,65 +1222,87 @@ func checkInstantiationMemo(c *Check, r *Rule, prefix string) {
 	}
 }
 
-func checkImportMemo(c *Check, r *Rule) {
-	L := c.L
+// nestedParseSites: every call of parser.Parse from inside the parser package, with the body (function declaration or
+// innermost function literal) it sits in and whether, on every path of that body to the call, the module map was given
+// its nil placeholder (predefinedModules[k] = nil).
+type nestedParse struct {
+	fi      *FuncInfo
+	call    *ast.CallExpr
+	guarded bool
+}
+
+func nestedParseSites(L *Loaded) []nestedParse {
 	pp := L.ByRel["src/parser"]
 	info := pp.TypesInfo
-	fi := L.Fn("src/parser.(*parser).resolveModuleImport")
-	if fi == nil {
-		r.Und("parser.(*parser).resolveModuleImport", token.NoPos, "function not found")
-		return
-	}
-	q := L.QName(fi.Obj)
-	// every call of Parse is dominated by an assignment predefinedModules[k] = nil
-	g := L.CFG(fi)
-	isNestedParseLit := func(n ast.Node) bool { return false }
-	_ = isNestedParseLit
-	mf := &mustFlow{G: g, Init: 0, Transfer: func(n ast.Node, s uint32) uint32 {
+	isPlaceholder := func(n ast.Node) bool {
 		if as, ok := n.(*ast.AssignStmt); ok && len(as.Lhs) == 1 && len(as.Rhs) == 1 {
 			if ix, ok := as.Lhs[0].(*ast.IndexExpr); ok {
 				if v := fieldOf(info, ix.X); v != nil && v.Name() == "predefinedModules" && info.Types[as.Rhs[0]].IsNil() {
+					return true
+				}
+			}
+		}
+		return false
+	}
+	var out []nestedParse
+	L.ForEachFunc([]string{"src/parser"}, func(fi *FuncInfo) {
+		ast.Inspect(fi.Decl.Body, func(n ast.Node) bool {
+			call, ok := n.(*ast.CallExpr)
+			if !ok {
+				return true
+			}
+			if fn := Callee(info, call); fn == nil || L.QName(fn) != "parser.Parse" {
+				return true
+			}
+			body := fi.Decl.Body
+			if fl := enclosingFuncLit(fi.Decl.Body, call); fl != nil {
+				body = fl.Body
+			}
+			g := L.CFGBody(fi.Pkg, body)
+			mf := &mustFlow{G: g, Init: 0, Transfer: func(n ast.Node, s uint32) uint32 {
+				if isPlaceholder(n) {
 					return s | 1
 				}
-			}
-		}
-		return s
-	}}
-	mf.Run()
-	// the Parse call may sit inside a closure; check lexical order as well as flow in the enclosing function
-	found := false
-	var placeholderPos token.Pos
-	ast.Inspect(fi.Decl.Body, func(n ast.Node) bool {
-		if as, ok := n.(*ast.AssignStmt); ok && len(as.Lhs) == 1 && len(as.Rhs) == 1 {
-			if ix, ok := as.Lhs[0].(*ast.IndexExpr); ok {
-				if v := fieldOf(info, ix.X); v != nil && v.Name() == "predefinedModules" && info.Types[as.Rhs[0]].IsNil() {
-					placeholderPos = as.Pos()
+				return s
+			}}
+			mf.Run()
+			guarded := false
+			for _, b := range g.Blocks {
+				for i, nd := range b.Nodes {
+					callsIn(nd, func(c2 *ast.CallExpr) {
+						if c2 == call {
+							guarded = mf.StateAt(b, i)&1 != 0
+						}
+					})
 				}
 			}
-		}
-		return true
+			out = append(out, nestedParse{fi, call, guarded})
+			return true
+		})
 	})
-	ast.Inspect(fi.Decl.Body, func(n ast.Node) bool {
-		if call, ok := n.(*ast.CallExpr); ok {
-			if fn := Callee(info, call); fn != nil && L.QName(fn) == "parser.Parse" {
-				found = true
-				r.Decide(placeholderPos.IsValid() && placeholderPos < call.Pos(), q+"|placeholder before nested Parse", call.Pos(), "the module map gets its nil placeholder before the nested Parse", "the nested Parse of an imported module runs without the nil placeholder in the module map: modules that import each other recurse until the stack is exhausted")
-			}
-		}
-		return true
-	})
-	if !found {
-		r.Und(q+"|nested Parse", fi.Decl.Pos(), "no call of Parse found")
+	return out
+}
+
+func checkImportMemo(c *Check, r *Rule) {
+	L := c.L
+	sites := nestedParseSites(L)
+	if len(sites) == 0 {
+		r.Und("parser|nested Parse", token.NoPos, "no call of Parse from inside the parser found")
+		return
 	}
-	// the hit arm on a nil placeholder reports MISC_INCLUDE_ERROR
-	rep := false
-	ast.Inspect(fi.Decl.Body, func(n ast.Node) bool {
-		if sel, ok := n.(*ast.SelectorExpr); ok && sel.Sel.Name == "MISC_INCLUDE_ERROR" {
-			rep = true
-		}
-		return true
-	})
-	r.Decide(rep, q+"|cycle reported", fi.Decl.Pos(), "a hit on the placeholder is reported as an include error", "circular imports are no longer reported")
+	for _, s := range sites {
+		q := L.QName(s.fi.Obj)
+		r.Decide(s.guarded, q+"|placeholder before nested Parse", s.call.Pos(), "the module map gets its nil placeholder on every path to the nested Parse", "the nested Parse of an imported module runs without the nil placeholder in the module map: modules that import each other recurse until the stack is exhausted")
+		// the hit arm on a nil placeholder reports MISC_INCLUDE_ERROR
+		rep := false
+		ast.Inspect(s.fi.Decl.Body, func(n ast.Node) bool {
+			if sel, ok := n.(*ast.SelectorExpr); ok && sel.Sel.Name == "MISC_INCLUDE_ERROR" {
+				rep = true
+			}
+			return true
+		})
+		r.Decide(rep, q+"|cycle reported", s.fi.Decl.Pos(), "a hit on the placeholder is reported as an include error", "circular imports are no longer reported")
+	}
 }
 
 // checkMayNil is defined in c03nil.go
